@@ -122,6 +122,19 @@ CLAIMED["C06"] = dict(
          "Not covered: PointGroup.star itself (see C09), split_tetra_* loops (termination not claimed).",
     note=TB + "; assumed: equiv() is an equivalence relation and equivalent points have equal distGamma; orbit-stabiliser for 'exactly once' is only checked on the enumerated groups")
 
+CLAIMED["C13"] = dict(
+    text="StaticCalculator.__init__/__call__ (real text, real numpy, SYMBOLIC formula values) for every position of a group energy "
+         "relative to the extended Fermi grid (below, on each grid point, inside each interval, above -- complete for all real energies "
+         "because the code reads an energy only through <, <= and ceil against that grid), other groups at three background positions: "
+         "out[j] = c/(V nk) times the fder-th central difference of sea(E) = sum over groups with E_g <= E of the formula's trace, for "
+         "fder 0-3, additive and non-additive formulas, k-resolved (one row per k, same values) and integrated, hole_like/use_factor; "
+         "per shape (nEF 1,2,4; <= 3 groups per k-point). get_bands_in_range_groups_ik with get_bands_in_range/get_bands_below_range/"
+         "get_borders (real text, model numpy) for ALL real sorted energies at NB = 1..4: keys pairwise disjoint, each a whole degenerate "
+         "group with its mean energy, present iff it meets the window, the sea key collects exactly the bands below the window that belong "
+         "to no in-window group (a group straddling emin counted whole, once). weight_select_bands exhaustively for blocks within 5 bands. "
+         "CumDOS corollaries follow (formula = group size); the tetrahedron branch is covered under C14.",
+    note=TB + "; uniform Fermi grid taken from the property statement; interaction of more than one moving group is covered only through three background configurations")
+
 NOT_APPLICABLE = {
     "C20": "real-space symmetrisation is a data-dependent floating-point orbit search over irrep objects; its postcondition is only statable through an eigen-solver, no discrete/algebraic kernel is left once externals are abstracted (DESIGN section 7)",
     "C21": "rotation matrices are produced inside sympy (polynomial expansion + evalf); orthogonality/composition live in that CAS computation, outside any contract this engine can generate VCs for (DESIGN section 7)",
